@@ -851,10 +851,17 @@ Lemma join_edges_total fl fr sl sr mid width : edge_line fl -> edge_line fr -> e
 Proof.
   intros Hfl Hfr Hsl Hsr Hm Hw. unfold join_edges_ok.
   rewrite !from_lines_total, !ip_intersection_total, !nearly_colinear_total, !from_line_total by assumption.
-  rewrite !le_point_distance_total by (assumption || apply Hsl || apply Hsr). cbn [andb].
-  destruct (join_point sl fl) as [li|] eqn:El; [ | reflexivity ]. destruct (join_point sr fr) as [ri|] eqn:Er; [ | reflexivity ].
-  pose proof (join_point_bound _ _ _ Hsl Hfl El) as [? ?]. pose proof (join_point_bound _ _ _ Hsr Hfr Er) as [? ?].
-  rewrite !miter_total; try reflexivity; try assumption; try (unfold pbound; lia); revert Hw; unf_ds; lia.
+  rewrite !le_point_distance_total by (assumption || apply Hsl || apply Hsr). cbn [andb]. cbv zeta.
+  destruct (ip_intersection sl fl) eqn:E1; [ | reflexivity ]. destruct (ip_intersection sr fr) eqn:E2; [ | reflexivity ].
+  rewrite Tauto.if_same. cbn [andb].
+  destruct (if ip_denominator sl fl <? 0 then _ else _); [reflexivity|].
+  destruct (ip_denominator sl fl <? 0).
+  - destruct (join_point sl fl) as [q|] eqn:El; [ | reflexivity ].
+    pose proof (join_point_bound _ _ _ Hsl Hfl El) as [? ?].
+    apply miter_total; try assumption; try (unfold pbound; lia); revert Hw; unf_ds; lia.
+  - destruct (join_point sr fr) as [q|] eqn:Er; [ | reflexivity ].
+    pose proof (join_point_bound _ _ _ Hsr Hfr Er) as [? ?].
+    apply miter_total; try assumption; try (unfold pbound; lia); revert Hw; unf_ds; lia.
 Qed.
 
 (* =========================================================================================== *)
